@@ -46,6 +46,9 @@ var c14Items = []string{
 	"fn Get%M_%K() -> i64 { let a := [1, 2, %K]; let s: i64 = 0; for v in a { s = s + (v as i64); } return s; }",
 	"fn Get%M_%K() -> i64 { let x: i64 = %K; let i: i64 = 0; while i < 3 { x = x * 3 + %M; i = i + 1; } return x; }",
 	"fn Get%M_%K() -> i64 { const c: i64 = %K%M; return c + 1; }",
+	// several vtables / type-ID globals in one module (their order in the generated code must not depend on map iteration)
+	"type Sh%M_%K interface { area() -> i64, };\ntype Nm%M_%K interface { id() -> i64, };\ntype Pt%M_%K struct { .X: i64 };\ntype Bx%M_%K struct { .W: i64, .H: i64 };\nfn (p: Pt%M_%K) area() -> i64 { return p.X; }\nfn (b: Bx%M_%K) area() -> i64 { return b.W * b.H; }\nfn (p: Pt%M_%K) id() -> i64 { return 1; }\nfn (b: Bx%M_%K) id() -> i64 { return 2; }\nfn Get%M_%K() -> i64 { let p: Pt%M_%K = {.X = %K}; let b: Bx%M_%K = {.W = 2, .H = %M}; let s1: Sh%M_%K = p; let s2: Sh%M_%K = b; let n1: Nm%M_%K = p; let n2: Nm%M_%K = b; return s1.area() + s2.area() + n1.id() + n2.id(); }",
+	"type An%M_%K interface {};\nfn Kind%M_%K(a: An%M_%K) -> i64 { if a is i32 { return 1; } if a is str { return 4; } if a is bool { return 5; } if a is i64 { return 2; } return 0; }\nfn Get%M_%K() -> i64 { let a1: An%M_%K = %K; let a2: An%M_%K = \"s\"; let a3: An%M_%K = true; return Kind%M_%K(a1) + Kind%M_%K(a2) + Kind%M_%K(a3); }",
 }
 
 // error injections appended as extra declarations (several diagnostics may share one line)
@@ -104,11 +107,26 @@ func c14Gen(t *rapid.T, env *core.Env) any {
 			}
 		}
 	}
+	// a module that does not exist, imported by two modules: which of them asks for it first
+	// depends on the schedule, the diagnostics must not
+	missing := map[int]bool{}
+	if withErrors && nm >= 2 && rapid.IntRange(0, 3).Draw(t, "missing_module") == 0 {
+		a := rapid.IntRange(1, nm).Draw(t, "missing_a")
+		b := rapid.IntRange(1, nm-1).Draw(t, "missing_b")
+		if b >= a {
+			b++
+		}
+		missing[a], missing[b] = true, true
+		c.NErr += 2
+	}
 	for m := 1; m <= nm; m++ {
 		if direct[m] {
 			mainB.WriteString(fmt.Sprintf("import \"proj/m%d\";\n", m))
 		}
 		var b strings.Builder
+		if missing[m] {
+			b.WriteString("import \"proj/gone\";\n")
+		}
 		for _, child := range extraImports[m] {
 			b.WriteString(fmt.Sprintf("import \"proj/m%d\";\n", child))
 		}
@@ -277,6 +295,9 @@ func c14Check(env *core.Env, ci any) (res core.Result) {
 				}
 				if strings.Contains(r.Out, "circular import") {
 					res.Labels = append(res.Labels, "circular_import_reported")
+				}
+				if strings.Contains(r.Out, "proj/gone") {
+					res.Labels = append(res.Labels, "missing_module_imported_twice")
 				}
 			}
 			continue
